@@ -241,7 +241,8 @@ func asBool(t iterator, v interface{}) bool {
 	case bool:
 		return v
 	case float64:
-		return v != 0
+		// zero and NaN are false
+		return v != 0 && !math.IsNaN(v)
 	case string:
 		return v != ""
 	case query:
